@@ -33,6 +33,9 @@ def cases(tier, seed):
     out = []
     for name in ('Covariance', 'ITML', 'LSML'):
         out.append(('%s/one_feature_int_points' % name, (name, 'ONE', 'onefeature', seed)))
+    for dsn in (['S3u'] if tier == 'quick' else ['S3u', 'S5', 'S2']):
+        for name in zoo.ALL:
+            out.append(('%s/%s/integer_typed_table' % (name, dsn), (name, dsn, 'inttable', seed)))
     for dsn in data.names(tier, small=True):
         for name in zoo.ALL:
             for pk in PRE_KINDS:
@@ -121,10 +124,102 @@ def one_feature_case(name):
     return dict(evals=evals, sigs=sigs, viol=viol, sample={'estimator': name, 'case': 'formed int64 points with one feature, preprocessor set'})
 
 
+class TypedCallable(object):
+    def __init__(self, T):
+        self.T, self.calls = T, 0
+
+    def __call__(self, ids):
+        self.calls += 1
+        return self.T[np.asarray(ids)]
+
+
+INT_DTYPES = ['uint8', 'uint16', 'int16', 'uint32', 'uint64', 'int64']
+
+
+def int_table_case(name, dsn):
+    """The point table is stored with an INTEGER dtype (image-like data): as an ndarray preprocessor and as a callable that
+    returns rows of that dtype.  Indicators through it must give bit for bit what the same points, formed as floats, give
+    (unsigned differences must not wrap around, small integers must not overflow)."""
+    warnings.simplefilter('ignore')
+    ds0 = data.dataset(dsn)
+    viol, sigs = [], set()
+    evals = 0
+    kind = zoo.KIND[name]
+    # the dataset in grid units, shifted to be non-negative: exact integers
+    Xi = np.round((ds0.X - ds0.X.min(0)) / data.GRID)
+    for dt in INT_DTYPES:
+        if dt == 'uint8':
+            # coarser units so that the values fit in a byte; kept only if the points stay pairwise distinct
+            Xq = np.floor(Xi * (250.0 / Xi.max()))
+            if len(np.unique(Xq, axis=0)) < len(Xq):
+                continue
+        else:
+            Xq = Xi
+        ds = data.DS()
+        ds.__dict__.update(ds0.__dict__)
+        ds.X = Xq.astype(float)
+        ds.pairs, ds.quads, ds.quads_sat, ds.trip = ds.X[ds0.pairs_idx], ds.X[ds0.quads_idx], ds.X[ds0.quads_sat_idx], ds.X[ds0.trip_idx]
+        T = Xq.astype(dt)
+        assert np.array_equal(T.astype(float), ds.X)
+        formed_args = zoo.train_args(name, ds, 'formed')
+        index_args = zoo.train_args(name, ds, 'index')
+        try:
+            est_f = zoo.make(name, ds).fit(*formed_args)
+        except Exception:
+            continue            # the quantised dataset is not a usable training set for this learner: nothing to compare
+        n = len(T)
+        pts_idx = np.array([0, n - 1, 3, 3, 1])
+        pair_idx = np.array([(0, 1), (1, 0), (n - 1, 2), (2, n - 1), (3, 3), (5, 4)])
+        for pk, pre in (('ndarray', T.copy()), ('callable', TypedCallable(T))):
+            tr = ['integer_table', dt, pk]
+            site = name
+            try:
+                est_i = zoo.make(name, ds, preprocessor=pre).fit(*index_args)
+            except Exception as e:
+                viol.append(V(site + '.fit', 'index_fit_raises', 'fit on indices through a %s %s preprocessor raised %s: %s'
+                              % (dt, pk, type(e).__name__, str(e)[:150]), tr))
+                evals += 1
+                continue
+            evals += 1
+            sigs.add((name, dsn, dt, pk, 'fit'))
+            for attr in ('components_', 'threshold_', 'bounds_', 'n_iter_'):
+                if hasattr(est_f, attr) and not (hasattr(est_i, attr) and same(getattr(est_f, attr), getattr(est_i, attr))):
+                    viol.append(V(site + '.fit', 'fitted_attribute', '%s differs between fit on formed (float) points and fit on indices through '
+                                  'a %s preprocessor holding the same points as %s' % (attr, pk, dt), tr))
+            if not hasattr(est_i, 'components_'):
+                continue
+            calls = [('transform', (pts_idx,), (ds.X[pts_idx],)), ('pair_distance', (pair_idx,), (ds.X[pair_idx],)),
+                     ('pair_score', (pair_idx,), (ds.X[pair_idx],))]
+            if kind == 'pairs':
+                calls += [('decision_function', (pair_idx,), (ds.X[pair_idx],)), ('predict', (pair_idx,), (ds.X[pair_idx],))]
+            elif kind in ('triplets', 'quads'):
+                k = 3 if kind == 'triplets' else 4
+                tup = np.array([[0, 1, n - 1, 2][:k], [2, n - 1, 1, 0][:k], [4, 3, 5, 6][:k]])
+                calls += [('decision_function', (tup,), (ds.X[tup],)), ('predict', (tup,), (ds.X[tup],))]
+            for meth, ia, fa in calls:
+                evals += 2
+                try:
+                    ri = getattr(est_i, meth)(*ia)
+                except Exception as e:
+                    viol.append(V(site + '.' + meth, 'index_call_raises', '%s on indices (%s %s preprocessor) raised %s: %s'
+                                  % (meth, dt, pk, type(e).__name__, str(e)[:120]), tr))
+                    continue
+                rf = getattr(est_f, meth)(*fa)
+                sigs.add((name, dsn, dt, pk, meth))
+                if not same(ri, rf):
+                    viol.append(V(site + '.' + meth, 'output_differs', '%s on indices through a %s preprocessor holding %s points differs from the '
+                                  'same points formed as floats' % (meth, pk, dt), tr))
+    return dict(evals=evals, sigs=sigs, viol=viol,
+                sample={'estimator': name, 'dataset': dsn + ' in grid units', 'case': 'integer-typed point table', 'dtypes': INT_DTYPES,
+                        'preprocessors': ['ndarray', 'callable']})
+
+
 def run_case(spec):
     name, dsn, pk, seed = spec
     if pk == 'onefeature':
         return one_feature_case(name)
+    if pk == 'inttable':
+        return int_table_case(name, dsn)
     ds = data.dataset('R', seed) if dsn == 'R' else data.dataset(dsn)
     warnings.simplefilter('ignore')
     kind = zoo.KIND[name]
